@@ -79,6 +79,9 @@ pub fn c06(ctx: &mut Ctx, tier: &str, seed: u64) {
         if (pa == pb) != (qa == qb) || pa.cmp(pb) != qa.cmp(qb) {
             ctx.fail("eq-cmp-vs-std", None, format!("rel u {} {}", hex(a), hex(b)), format!("impl eq {} cmp {:?}; std eq {} cmp {:?}", pa == pb, pa.cmp(pb), qa == qb, qa.cmp(qb)));
         }
+        if let Some(d) = alias_mismatch(false, a, b) {
+            ctx.fail("answers-depend-on-bytes-only", None, rp.clone(), d);
+        }
     }
     for (a, b) in gen::pairs_related(&small, false, if t { 20 } else { 4 }, seed) {
         let (pa, pb) = (UnixPath::new(&a), UnixPath::new(&b));
@@ -172,6 +175,56 @@ pub fn c07(ctx: &mut Ctx, tier: &str, seed: u64) {
             let sc: SPathBuf = [sp(a), sp(b)].iter().collect();
             if sp(x.as_bytes()) != y.as_path() || sp(c.as_bytes()) != sc.as_path() {
                 ctx.fail("extend-collect-vs-std", None, format!("hist u {} push:{} push:{}", hex(a), hex(b), hex(a)), format!("impl \"{}\" std {:?}", lossy(x.as_bytes()), y));
+            }
+            // Extend / FromIterator = repeated push, whatever kind of iterator delivers the pieces (exact size,
+            // lower bound only, lower bound 1 with more to come, no bound at all)
+            {
+                let pieces: Vec<&[u8]> = vec![b.as_slice(), a.as_slice(), b".", b.as_slice()];
+                macro_rules! by_push {
+                    ($B:ty, $start:expr, $items:expr) => {{
+                        let mut w: $B = <$B>::from($start);
+                        for it in $items {
+                            w.push(it);
+                        }
+                        w
+                    }};
+                }
+                macro_rules! ext_kinds {
+                    ($B:ty, $start:expr, $pieces:expr) => {{
+                        let pieces = $pieces;
+                        let want = by_push!($B, $start, pieces.iter().cloned());
+                        let want_c = by_push!($B, "", pieces.iter().cloned());
+                        let mut bad: Option<&'static str> = None;
+                        let mut e1: $B = <$B>::from($start);
+                        e1.extend(pieces.clone().into_iter());
+                        let mut e2: $B = <$B>::from($start);
+                        e2.extend(pieces.iter().cloned().filter(|_| true));
+                        let mut e3: $B = <$B>::from($start);
+                        e3.extend(std::iter::once(pieces[0]).chain(pieces[1..].iter().cloned().filter(|_| true)));
+                        let mut e4: $B = <$B>::from($start);
+                        e4.extend(std::iter::successors(Some(0usize), |i| if *i + 1 < pieces.len() { Some(*i + 1) } else { None }).map(|i| pieces[i]));
+                        let mut e5: $B = <$B>::from($start);
+                        e5.extend(std::iter::from_fn({ let mut k = 0; let ps = pieces.clone(); move || { k += 1; ps.get(k - 1).cloned() } }));
+                        let c1: $B = pieces.clone().into_iter().collect();
+                        let c2: $B = std::iter::once(pieces[0]).chain(pieces[1..].iter().cloned().filter(|_| true)).collect();
+                        let c3: $B = std::iter::successors(Some(0usize), |i| if *i + 1 < pieces.len() { Some(*i + 1) } else { None }).map(|i| pieces[i]).collect();
+                        for (nm, got, w) in [("extend(exact)", &e1, &want), ("extend(filter)", &e2, &want), ("extend(once+filter)", &e3, &want), ("extend(successors)", &e4, &want), ("extend(from_fn)", &e5, &want),
+                                             ("collect(exact)", &c1, &want_c), ("collect(once+filter)", &c2, &want_c), ("collect(successors)", &c3, &want_c)] {
+                            if got != w || format!("{:?}", got) != format!("{:?}", w) {
+                                bad.get_or_insert(nm);
+                            }
+                        }
+                        bad
+                    }};
+                }
+                let mut bad = ext_kinds!(UnixPathBuf, a.as_slice(), pieces.clone()).or(ext_kinds!(WindowsPathBuf, a.as_slice(), pieces.clone()));
+                if let (Ok(sa), Ok(sb)) = (std::str::from_utf8(a), std::str::from_utf8(b)) {
+                    let sp8: Vec<&str> = vec![sb, sa, ".", sb];
+                    bad = bad.or(ext_kinds!(Utf8UnixPathBuf, sa, sp8.clone())).or(ext_kinds!(Utf8WindowsPathBuf, sa, sp8.clone()));
+                }
+                if let Some(which) = bad {
+                    ctx.fail("extend-collect-is-repeated-push", None, format!("hist u {} push:{} push:{}", hex(a), hex(b), hex(a)), which.to_string());
+                }
             }
         }
     }
@@ -428,6 +481,9 @@ pub fn c10(ctx: &mut Ctx, tier: &str, seed: u64) {
             }
             if st.is_some() != sw {
                 ctx.fail("strip_prefix-succeeds-iff-starts_with", None, rp.clone(), format!("strip {:?} starts_with {}", st.as_ref().map(|x| lossy(x)), sw));
+            }
+            if let Some(d) = alias_mismatch(win, p, q) {
+                ctx.fail("answers-depend-on-bytes-only", None, rp.clone(), d);
             }
             if let Some(r) = &st {
                 let j = push_b(win, q, r);
